@@ -44,7 +44,7 @@ def ws_token(ctx, name, n):
     return s
 
 
-def explore_tokens(S, N):
+def explore_tokens(S, N, prefix='C08'):
     kt = T.KT
     core = S.core
     f_space = S.find_fn(core, 'PrettyPrinter::convert_space')
@@ -67,8 +67,8 @@ def explore_tokens(S, N):
             at = D.atoms(d, flat=False)
             is_nl = at == [('nl',)]
             is_blank = len(at) == 1 and at[0][0] == 't' and at[0][1].is_concrete() and at[0][1].concrete() == ' '
-            ctx.must_hold(is_nl or is_blank, 'C08:space-token-shape', lambda mdl: dict(token='Space', text=t.concrete(mdl)))
-            ctx.must_hold(i_eq(is_nl, has_newline(t)), 'C08:line-break-in-space-token-lost-or-invented', lambda mdl: dict(token='Space', text=t.concrete(mdl)))
+            ctx.must_hold(is_nl or is_blank, prefix + ':space-token-shape', lambda mdl: dict(token='Space', text=t.concrete(mdl)))
+            ctx.must_hold(i_eq(is_nl, has_newline(t)), prefix + ':line-break-in-space-token-lost-or-invented', lambda mdl: dict(token='Space', text=t.concrete(mdl)))
             ctx.witness('space with non-LF newline', b_and(has_newline(t), b_not(b_or(*[c_eq(c, 10) for c in t.chars]))))
             ctx.witness('space without newline', b_not(has_newline(t)))
         ob, ex = S.explore('markup.space[n=%d]' % n, 'convert_space on every whitespace token of %d code points' % n, body, bounds=dict(code_points=n))
@@ -92,8 +92,8 @@ def explore_tokens(S, N):
                 return
             S.absorb(m)
             at = D.atoms(d, flat=False)
-            ctx.must_hold(all(a == ('nl',) for a in at) and len(at) == k, 'C08:paragraph-break-count-changed',
-                          lambda mdl: dict(token='Parbreak', text=t.concrete(mdl), expected=k, got=len(at)))
+            ctx.must_hold(all(a == ('nl',) for a in at) and len(at) == k, prefix + ':paragraph-break-count-changed',
+                          lambda mdl: dict(token='Parbreak', text=t.concrete(mdl), expected=k, got=len(at), blank_lines_upper_bound=model_int(mdl, cfg.get('blank_lines_upper_bound'))))
             ctx.witness('parbreak of CRs', b_and(*[c_eq(c, 13) for c in t.chars]))
         ob, ex = S.explore('markup.parbreak[n=%d]' % n, 'convert_parbreak on every whitespace token of %d code points holding >= 2 newlines' % n, body, bounds=dict(code_points=n))
         S.require_witness(ob, ['parbreak of CRs'])
@@ -107,7 +107,7 @@ def explore_tokens(S, N):
             node = Node(kt.k('Text'), text=t)
             d = m.call_fn(f_text, [pr, Ast('Text', node)])
             S.absorb(m)
-            ctx.must_hold(d.k == 'text' and len(d.a) == n and str_eq(d.a, t), 'C08:text-not-verbatim', lambda mdl: dict(token='Text', text=t.concrete(mdl)))
+            ctx.must_hold(d.k == 'text' and len(d.a) == n and str_eq(d.a, t), prefix + ':text-not-verbatim', lambda mdl: dict(token='Text', text=t.concrete(mdl)))
         ob, ex = S.explore('markup.text[n=%d]' % n, 'convert_text emits the token text verbatim (%d code points)' % n, body, bounds=dict(code_points=n))
         for lab, mdl, info in ex.violations:
             found.append((lab, info))
